@@ -1,6 +1,7 @@
 package main
 
 import (
+	"go/token"
 	"fmt"
 	"regexp"
 	"strings"
@@ -179,6 +180,86 @@ func runC03(c *Ctx) {
 	c03Mapping(c, G, L, typeD, storesParam)
 }
 
+// c03SchemeOfEnvelope: v is <S>.SignedAttributes.SigningScheme where S is the SignerInfo of an envelope content — directly, or a
+// (pointer to) SignerInfo parameter of an unexported function every call site of which passes such a SignerInfo.
+func c03SchemeOfEnvelope(w *World, v ssa.Value) bool {
+	// peel .SigningScheme and .SignedAttributes
+	base := v
+	for _, f := range []string{"SigningScheme", "SignedAttributes"} {
+		if ld, ok := base.(*ssa.UnOp); ok && ld.Op == token.MUL {
+			base = ld.X
+		}
+		switch x := base.(type) {
+		case *ssa.FieldAddr:
+			if fieldName(x.X.Type(), x.Field) != f {
+				return false
+			}
+			base = x.X
+		case *ssa.Field:
+			if fieldName(x.X.Type(), x.Field) != f {
+				return false
+			}
+			base = x.X
+		default:
+			return false
+		}
+	}
+	return c03SignerInfoOfEnvelope(w, base, 0)
+}
+
+func c03SignerInfoOfEnvelope(w *World, v ssa.Value, depth int) bool {
+	if depth > 3 {
+		return false
+	}
+	if ld, ok := v.(*ssa.UnOp); ok && ld.Op == token.MUL {
+		v = ld.X
+	}
+	if d := desc(v); strings.HasSuffix(d, ".EnvelopeContent.SignerInfo") {
+		return true
+	}
+	p, ok := v.(*ssa.Parameter)
+	if !ok || namedOf(p.Type()) != "core/signature.SignerInfo" {
+		return false
+	}
+	g := p.Parent()
+	if g == nil || !w.IsProductFn(g) || token.IsExported(g.Name()) {
+		return false
+	}
+	pi := -1
+	for i, q := range g.Params {
+		if q == p {
+			pi = i
+		}
+	}
+	sites := 0
+	for _, fn := range w.Funcs {
+		for _, b := range fn.Blocks {
+			for _, in := range b.Instrs {
+				if mc, ok := in.(*ssa.MakeClosure); ok && mc.Fn == ssa.Value(g) {
+					return false
+				}
+				ci, ok := in.(ssa.CallInstruction)
+				if !ok {
+					continue
+				}
+				for _, a := range ci.Common().Args {
+					if a == ssa.Value(g) {
+						return false
+					}
+				}
+				if ci.Common().StaticCallee() != g {
+					continue
+				}
+				if len(ci.Common().Args) != len(g.Params) || !c03SignerInfoOfEnvelope(w, ci.Common().Args[pi], depth+1) {
+					return false
+				}
+				sites++
+			}
+		}
+	}
+	return sites > 0
+}
+
 // c03Mapping: callers of the typed loader.
 func c03Mapping(c *Ctx, G *ssa.Function, L *ssa.Call, typeD, storesParam string) {
 	w := c.W
@@ -349,7 +430,7 @@ func c03Mapping(c *Ctx, G *ssa.Function, L *ssa.Call, typeD, storesParam string)
 				// scheme argument: the verified envelope's signing scheme
 				okScheme := false
 				for _, a := range call.Call.Args {
-					if strings.HasSuffix(desc(a), ".SignerInfo.SignedAttributes.SigningScheme") {
+					if strings.HasSuffix(desc(a), ".SignerInfo.SignedAttributes.SigningScheme") || c03SchemeOfEnvelope(w, a) {
 						okScheme = true
 					}
 				}
